@@ -98,7 +98,7 @@ func siteHasUsage(a *txnAnalyzer, s *txnSite) bool {
 
 func checkC10(p *Prog, r *Result, tier string) {
 	r.Technique = "compensation-completeness analysis of every utils.Txn/PCR call site (effect table + CFG reachability with branch pruning on failureByCond) and must-hold lock sets over the synchronous call graph"
-	r.Explanation = "Decides two structural necessary conditions of 'node usage == sum of recorded workloads': (E1) at every Txn/PCR site whose closures change node usage or workload records, no failing path the combinator reports leaves such a change without its inverse (a self-inverse rewrite must write a value snapshot, not an alias of the mutated object) (T1 cond not atomic, T2 then can fail, T3 effect inside then, T4 PCR prepare is pure, T5 plugin fan-out recorded and reverted, T5c the fan-out helper returns the partial answer map together with the error); (ADM) a re-allocation is admitted by testing the full new request (delta + origin) against the pool from which the origin was subtracted, in both the CPU-bound and the memory branch; (L4) every usage mutator called from cluster/calcium runs with the pod lock held on every synchronous path (the plugin's read-modify-write has no transaction of its own). TC: the closures run under the context the combinator hands them."
+	r.Explanation = "Decides two structural necessary conditions of 'node usage == sum of recorded workloads': (E1) at every Txn/PCR site whose closures change node usage or workload records, no failing path the combinator reports leaves such a change without its inverse (a self-inverse rewrite must write a value snapshot, not an alias of the mutated object) (T1 cond not atomic, T2 then can fail, T3 effect inside then, T4 PCR prepare is pure, T5 plugin fan-out recorded and reverted, T5c the fan-out helper returns the partial answer map together with the error, LED an effect the rollback finds through a list is recorded in that list before any other step can fail); (ADM) a re-allocation is admitted by testing the full new request (delta + origin) against the pool from which the origin was subtracted, in both the CPU-bound and the memory branch; (L4) every usage mutator called from cluster/calcium runs with the pod lock held on every synchronous path (the plugin's read-modify-write has no transaction of its own). TC: the closures run under the context the combinator hands them."
 	r.NotCovered = "numeric equality of usage and the workload sum; faults inside compensations; worker-pool saturation; that allocation never exceeds capacity (numeric)"
 	r.Assumptions = []string{"A2", "A3", "effect table (printed under tables) lists the lasting effects and their inverses"}
 	a := newTxnAnalyzer(p, r)
@@ -116,7 +116,9 @@ func checkC10(p *Prog, r *Result, tier string) {
 		n++
 		a.checkTxnSite(r, s, usageOrRecord)
 		a.checkClosureCtx(r, s)
+		a.checkLedger(r, s)
 	}
+	r.min("LED", 1)
 	r.Analysed["sites_with_usage_mutators"] = n
 	if n < 9 {
 		r.undecided("count", "sites with usage mutators", "", fmt.Sprintf("found %d Txn/PCR sites with usage mutators, expected at least 9", n))
@@ -128,7 +130,7 @@ func checkC10(p *Prog, r *Result, tier string) {
 
 func checkC11(p *Prog, r *Result, tier string) {
 	r.Technique = "compensation-completeness analysis of every utils.Txn/PCR call site (effect table, CFG reachability with branch pruning on failureByCond, closure context discipline)"
-	r.Explanation = "For all 17 Txn/PCR sites and all lasting effects of the effect table: T1 an effect in cond followed by a fallible step is undone when cond fails; T2 when then can fail every cond effect has its inverse reachable in the rollback on the failureByCond=false path; T3 an effect inside then followed by a fallible step has its inverse in the rollback; T4 PCR prepare has no effect; T5 PCR commit fan-outs record the plugins that answered and the rollback reverts exactly those; T5c the fan-out helper hands back the partial answer map together with the error; SN SetNode's capacity rollback restores the value returned by the forward call with delta=false; TC closures use the context handed to them. A missing inverse means some single-fault position leaves a lasting effect after a reported failure."
+	r.Explanation = "For all 17 Txn/PCR sites and all lasting effects of the effect table: T1 an effect in cond followed by a fallible step is undone when cond fails; T2 when then can fail every cond effect has its inverse reachable in the rollback on the failureByCond=false path; T3 an effect inside then followed by a fallible step has its inverse in the rollback; T4 PCR prepare has no effect; T5 PCR commit fan-outs record the plugins that answered and the rollback reverts exactly those; T5c the fan-out helper hands back the partial answer map together with the error; LED when the rollback walks a list filled by the condition step, each effect is appended to it before anything else can fail; SN SetNode's capacity rollback restores the value returned by the forward call with delta=false; TC closures use the context handed to them. A missing inverse means some single-fault position leaves a lasting effect after a reported failure."
 	r.NotCovered = "whether an inverse restores the exact prior value (except SN); faults inside compensating steps; effects outside the effect table"
 	r.Assumptions = []string{"A2", "A3", "effect table (printed under tables)"}
 	a := newTxnAnalyzer(p, r)
@@ -144,7 +146,9 @@ func checkC11(p *Prog, r *Result, tier string) {
 	for _, s := range sites {
 		a.checkTxnSite(r, s, nil)
 		a.checkClosureCtx(r, s)
+		a.checkLedger(r, s)
 	}
+	r.min("LED", 1)
 	checkSetNodeRollback(p, r, sites)
 	checkCallHelper(p, r)
 }
